@@ -135,6 +135,9 @@ func buildFiles(dir string, n int, seed int64, small bool) []*BuiltFile {
 			g := GenCfg{Keys: 8 + rng.Intn(30), Vals: 8, MaxDepth: 2 + rng.Intn(2), Txs: 5 + rng.Intn(12), OpsPerTx: 4 + rng.Intn(16), PReopen: 0.1}
 			if small {
 				g.Keys, g.Txs = 8+rng.Intn(14), 4+rng.Intn(6)
+			} else if i%3 == 0 {
+				// one big flat bucket: multi-level trees with branch pages
+				g = GenCfg{Keys: 120 + rng.Intn(300), Vals: 6, MaxDepth: 2, Txs: 6 + rng.Intn(6), OpsPerTx: 60 + rng.Intn(80), PReopen: 0.1, BigBucket: 300}
 			}
 			bf, err := BuildFile(filepath.Join(dir, fmt.Sprintf("f%03d.db", i)), o, prof, seed*977+int64(i), g)
 			if err == nil {
@@ -251,6 +254,14 @@ func CheckC12(c *Ctx) int {
 	c.Cov["golden_files"] = len(goldens)
 	c.evalFormat(evs, 14, "fmt")
 	c.Cov["files_decoded_by_tlc"] = len(evs)
+	// the 0xFFFF count convention of the freelist page: > 65534 ids written by both real backends, the page
+	// image decoded with nothing but the published layout and judged by TLC (TraceFreelist: count field 0xFFFF,
+	// leading element = number of ids, ids = sorted free + pending), then re-read by the other backend
+	c.Cov["freelist_overflow_ops"] = c.runFreelistPrograms(bigFreelistPrograms(), 2)
+	c.Cov["freelist_images_with_0xFFFF_count"] = OverflowImages.Load()
+	if OverflowImages.Load() == 0 {
+		c.Infra = append(c.Infra, "the > 65534-id scenario did not produce a page image with the 0xFFFF count convention")
+	}
 	// (2) many more / larger files: the Go decoder vs the API (exact byte-level projection)
 	big := buildFiles(filepath.Join(c.WorkDir), c.Pick(60, 600), c.Seed+5, false)
 	nt := 0
